@@ -115,6 +115,12 @@ def canon_iter(t):
         if c is not None:
             return c
         return ("at", _strip_iter(t[1]))
+    if t[0] == "call" and t[1] == "Vec::with_capacity" and len(t[2]) == 1:
+        return EMPTY_VEC   # the capacity is no part of the value
+    if t[0] == "upd" and t[2] in ("extend", "extend_from_slice", "append") and len(t[3]) == 1 and t[1] in (EMPTY_VEC, ("list", ())):
+        return _strip_iter(t[3][0])   # an empty list extended by the elements of X is (a copy of) X
+    if t[0] == "upd" and t[2] in ("reserve", "reserve_exact", "shrink_to_fit"):
+        return t[1]
     return t
 
 
@@ -240,7 +246,16 @@ class NF:
                 go(x[1])
             elif x[0] == "upd" and x[2] in ("extend", "append"):
                 go(x[1])
-                out.append(("vars-of", self.gen(x[3][0])))
+                c = None
+                try:
+                    g = self.gen(x[3][0])
+                    c = _comp(g)
+                    if c is not None:
+                        c = self.var(c)
+                except AnalysisGap:
+                    c = None
+                # extending by `xs.map(|x| Variable {..})` adds the same variables as pushing each of them
+                out.append(c if c is not None else ("vars-of", self.gen(x[3][0])))
             elif x[0] == "call" and x[1] in ("Vec::new", "Vec::with_capacity", "IndexSet::new"):
                 pass
             elif x[0] == "call" and x[1] == "Iterator::chain" and len(x[2]) == 2:
